@@ -164,6 +164,18 @@ def handle (j : Json) : R Json := do
           ("re1", outcomeToJson (reval (okVal (some mval)) false)), ("re2", outcomeToJson (reval (okVal (some mval)) true)),
           ("call", outcomeToJson (some mcall)), ("recall", outcomeToJson mrecall)]),
         ("judge", jstrs verdict)]
+  | "change" =>
+    -- a `change` request through the real dispatcher: stored value / error class, with the witness hint
+    let dt ← dtypeOfJson (← fld j "dt")
+    let cand ← jvalOfJson (← fld j "cand")
+    let held ← pvalOfJson (← fld j "held")
+    let hint ← optPVal (← fld j "hint")
+    let out ← outcomeOfJson (← fld j "out")
+    let m := outcomeOfRes (changeValue dt cand held)
+    let verdict := match out with
+      | some o => judgeChange dt cand held hint o
+      | none => ["change:missing"]
+    return Json.mkObj [("wf", .bool dt.wfB), ("model", outcomeToJson (some m)), ("judge", jstrs verdict)]
   | "laws" =>
     let tuples ← (← fldArr j "tuples").mapM (fun t => do
       match ← arr t with
